@@ -619,10 +619,12 @@ class ForEmission(Task):
         return native_loops(w)
 
     def finding_key(self, res):
-        d = res.detail or ""
-        if ELSE_AT_END in d and d.count("; ") == d.split(ELSE_AT_END)[0].count("; "):
+        # the specific site: the failures of this path are exactly "cleared at the end of the body" (anything else, or anything
+        # in addition, is a different finding)
+        fails = (res.detail or "").rsplit("`: ", 1)[-1]
+        if fails == ELSE_AT_END:
             return "else_indicator_cleared_at_end_of_body"
-        return d.split("`: ", 1)[-1][:120]
+        return fails[:120]
 
     def run(self, tier, seed):
         t0 = time.time()
